@@ -154,11 +154,12 @@ class Excel:
             worksheets_titles.append(worksheet.title)
             worksheet_data = []
             max_row_len = 0
-            for row in worksheet.iter_rows():
+            for row_index, row in enumerate(worksheet.iter_rows()):
                 rows_data = []
                 for index, cell in enumerate(row):
                     if cell.value and (suspicious_constructions := cls._get_suspicious_constructions(cell.value)):
-                        suspicious_cells[f"'{worksheet.title}'{cell.column_letter}{index+1}"] = suspicious_constructions
+                        suspicious_cells[f"'{worksheet.title}'{cell.column_letter}{row_index+1}"] = \
+                            suspicious_constructions
 
                     # обрабатываем ArrayFormula, считываем из него значение формулы
                     if isinstance(cell.value, ArrayFormula):
